@@ -34,6 +34,7 @@ import DafRel.Lemmas.SqlHistory
 import DafRel.Lemmas.ProcMulti
 import DafRel.Lemmas.Backtrack
 import DafRel.Bridge.RelOps
+import DafRel.Bridge.JoinOps
 import DafRel.Lemmas.BacktrackJoin
 
 namespace DafRel.Props.C14
